@@ -85,3 +85,21 @@ def _vec_confirm(vals):
 C07_SPECS = [dict(name='c07_vec_index', types=['usize', 'i64'], desc='<Vec<T> as ArrayView>::{get, contains_key, size, first, last} (instantiation T = i64): zero-based, negative indices from the end, '
                   'anything else is absent; contains_key agrees with get', bounds={'len': '0..5', 'index': 'every i64'},
                   scenario=lambda vals: {'kind': 'vec_index', 'len': vals[0], 'idx': vals[1]}, confirm=_vec_confirm)]
+
+
+def _dt_confirm(vals):
+    oa, ob, sa, sb = vals
+    def f(r):
+        if r.get('outcome') != 'ok': return True
+        return r['eq'] != (sa == sb) or r['cmp'] != ('lt' if sa < sb else 'gt' if sa > sb else 'eq')
+    return f
+
+
+C17_SPECS = [dict(name='c17_datetime_order_is_chronological', types=['i8', 'i8', 'i32', 'i32'],
+                  desc='two date-times (a base instant +- up to 100000 s, each shown in any whole-hour offset from -12:00 to +14:00) are equal exactly when they denote the same instant and are ordered chronologically',
+                  bounds={'offsets': '-12..+14 hours (whole hours)', 'instants': 'base +- 100000 seconds'},
+                  scenario=lambda vals: {'kind': 'datetime_cmp', 'oa': _i8(vals[0]), 'ob': _i8(vals[1]), 'sa': vals[2], 'sb': vals[3]}, confirm=_dt_confirm)]
+
+
+def _i8(b):
+    return b - 256 if isinstance(b, int) and b > 127 else b
